@@ -677,10 +677,36 @@ def translator_gate(run):
                              forced=sum(1 for _, es in tab for e in es if e[2]),
                              obligation='Gen.statutory = C17.modelTable by decide; statutory_agrees, statutory_immune instantiated',
                              source=[m + '.py' for m in gen_options.STATUTORY])
+    if not (ok and axioms_ok):
+        return ['generated table (droop/rules/*.py options()) differs from lean/Props/C17.lean modelTable: '
+                + ' '.join(l for l in out.split('\n') if 'error' in l.lower())[:300] + ' regenerated=%s' % (tab,)]
+    # the configurable rules (wigm, meek/warren): options() translated into the program language of Props/C17Prog.lean
+    try:
+        progs = gen_options.programs(common.REPO)
+    except gen_options.TranslationError as e:
+        cov['translator_programs'] = dict(status='refused', why=str(e))
+        return ['translator harness/gen_options.py refused the source: %s' % e]
+    except Exception as e:
+        cov['translator_programs'] = dict(status='error', why='%s: %s' % (type(e).__name__, e))
+        return ['translator harness/gen_options.py failed: %s: %s' % (type(e).__name__, e)]
+    path = os.path.join(gdir, 'Programs_%d.lean' % os.getpid())
+    open(path, 'w').write(gen_options.lean_prog_file(progs))
+    try:
+        r = subprocess.run(['lake', 'env', 'lean', path], cwd=common.LEAN, capture_output=True, text=True, timeout=600)
+        out = r.stdout + r.stderr
+    finally:
+        try: os.remove(path)
+        except OSError: pass
+    ok = r.returncode == 0 and 'error' not in out.lower()
+    axioms_ok = all(set(a.strip() for a in m.split(',') if a.strip()) <= common.STD_AXIOMS
+                    for m in re.findall(r"depends on axioms: \[([^\]]*)\]", out, flags=re.S))
+    cov['translator_programs'] = dict(status='checked' if ok and axioms_ok else 'mismatch', programs=[n for n, _ in progs],
+                                      obligation='Gen.wigmProg = C17.wigmProg, Gen.meekProg = C17.meekProg by rfl; wigm_options, meek_options instantiated',
+                                      source=['wigm.py', 'meek.py'])
     if ok and axioms_ok:
         return []
-    return ['generated table (droop/rules/*.py options()) differs from lean/Props/C17.lean modelTable: '
-            + ' '.join(l for l in out.split('\n') if 'error' in l.lower())[:300] + ' regenerated=%s' % (tab,)]
+    return ['options() of wigm.py / meek.py, translated, is no longer the program lean/Props/C17Prog.lean proves the option model equal to: '
+            + ' '.join(l for l in out.split('\n') if 'error' in l.lower())[:300]]
 
 
 @prop('C17')
